@@ -41,7 +41,7 @@ BOUNDS = {
     "quick": {"op family": "every Binop operator (12) x every integer type (8) + ptr + - *; unary - ~ x 8 types; every Cast pair of "
                            "{i8..u64, ptr} (81); load and store of every type (9) at a symbolic in-bounds offset into a 16-byte global "
                            "between two other globals; 12 store-T1/load-T2 aliasing pairs; 7 phi/CFG templates",
-              "C corpus": "42 programs of corpus/cprogs.py + 12 programs of props/C24.py (EXTRA_PROGS) through the real C front end "
+              "C corpus": "43 programs of corpus/cprogs.py + 12 programs of props/C24.py (EXTRA_PROGS) through the real C front end "
                           "(march arm), unoptimised; 15 loop/branch programs also after optimize level 2 (phis)",
               "symbolic": "all arguments (full range of the IR type), initial contents of globals (<= 32 bytes), 16 bytes behind "
                           "each pointer argument, 4 external call results",
@@ -92,13 +92,13 @@ EXTRA_PROGS = {
 
 # programs of the shared corpus used here (a fixed list: the corpus grows with other properties' needs;
 # tail_swap_gcd - recursion through a symbolic signed remainder - is left out: its path feasibility queries
-# nest srem terms and do not finish inside the job budget; store_load_alias_store indexes an array with an
-# unconstrained int - out-of-object pointer arithmetic, whose meaning depends on the address map)
+# nest srem terms and do not finish inside the job budget.  store_load_alias_store indexes an array with an
+# unconstrained int: out-of-object accesses are outside irsem's premise (pointer provenance))
 CORPUS_PROGS = ['add_zero', 'addr_of_local', 'arith', 'calls', 'char_wrap', 'compound', 'const_fold', 'cse_candidates', 'divmod',
                 'do_while', 'empty_branches', 'empty_else_chain', 'extern_calls', 'extern_order', 'for_break', 'global_array',
                 'global_rw', 'ifelse', 'incdec', 'load_after_store', 'local_array', 'logic', 'long_arith', 'mixed_width',
                 'negative_consts', 'nested_loops', 'pointer_arg', 'recursion', 'shifts', 'store_call_store',
-                'store_narrowload_store', 'struct', 'switch', 'tail_call', 'tail_pass_through',
+                'store_load_alias_store', 'store_narrowload_store', 'struct', 'switch', 'tail_call', 'tail_pass_through',
                 'tail_rotate3', 'tail_self', 'ternary', 'udivmod', 'ulong_arith', 'unsigned_cmp', 'while_sum']
 
 
